@@ -183,8 +183,8 @@ SpecBinType(f, x, y, ctx) ==
         IF x.b = "B" /\ Has(x, {"d", "u"}) /\ y.b = "B"
         THEN Ty("B", If(Has(x, {"o"}) /\ Has(y, {"z"}), {"o"})
                      \cup If(Has(x, {"m", "e"}) /\ Has(y, {"m"}) /\ (Has(x, {"s"}) \/ Has(y, {"s"})), {"m"})
-                     \cup Both(x, y, {"z", "s"})
-                     \cup Keep(y, {"u", "f", "d", "e"}))
+                     \cup Both(x, y, {"z", "s", "e"})
+                     \cup Keep(y, {"u", "f", "d"}))
         ELSE BadType
     [] f = "or_c" ->
         IF x.b = "B" /\ Has(x, {"d", "u"}) /\ y.b = "V"
